@@ -12,6 +12,7 @@ import random as _pyrandom
 import zlib
 
 import numpy as np
+from numpy.random.mtrand import RandomState as _RealRandomState
 
 from . import kernel
 
@@ -133,13 +134,111 @@ def _py_seed(a=None, version=2):
     sim.event("pyseed", repr(a))
 
 
+# ------------------------------------------------------------------ other sources of entropy
+# Generators constructed without a seed, os.urandom and wall-clock reads made from package code take their value from
+# the simulator's entropy stream / logical clock: one VERIF_SEED stays one execution whatever source the library uses,
+# and "the same OS entropy" can be given to two executions whichever way they read it.
+_ORIG_OTHER: dict = {}
+
+
+def _from_package(depth=2) -> bool:
+    import sys
+    f = sys._getframe(depth)
+    for _ in range(6):
+        if f is None:
+            return False
+        if "/pyvolutionary/" in f.f_code.co_filename:
+            return True
+        f = f.f_back
+    return False
+
+
+def _entropy_ctor(name):
+    orig = _ORIG_OTHER[name]
+
+    def ctor(seed=None, *a, **k):
+        sim = kernel.ACTIVE
+        if sim is not None and not sim.aborting and seed is None:
+            seed = sim.entropy()
+            sim.count("other_generators_seeded_from_entropy")
+            sim.event("seed", f"{name}:entropy:{seed}")
+        elif sim is not None and not sim.aborting:
+            sim.event("seed", f"{name}:user")
+        return orig(seed, *a, **k)
+
+    ctor.__name__ = name
+    ctor.__qualname__ = f"simrng.{name}"
+    ctor.__wrapped__ = orig
+    return ctor
+
+
+class SimRandom(_pyrandom.Random):
+    """random.Random() without a seed reads the simulator's entropy inside a simulation."""
+
+    def __init__(self, x=None):
+        sim = kernel.ACTIVE
+        if x is None and sim is not None and not sim.aborting:
+            x = sim.entropy()
+            sim.count("other_generators_seeded_from_entropy")
+        super().__init__(x)
+
+    def seed(self, a=None, version=2):
+        sim = kernel.ACTIVE
+        if a is None and sim is not None and not sim.aborting:
+            a = sim.entropy()
+        super().seed(a, version)
+
+
+def _urandom(n):
+    sim = kernel.ACTIVE
+    if sim is None or sim.aborting or not _from_package():
+        return _ORIG_OTHER["urandom"](n)
+    sim.count("urandom_reads_from_package")
+    r = _pyrandom.Random(sim.entropy())
+    return bytes(r.getrandbits(8) for _ in range(n))
+
+
+def _clock(name, scale, integer):
+    orig = _ORIG_OTHER[name]
+
+    def read():
+        sim = kernel.ACTIVE
+        if sim is None or sim.aborting or not _from_package():
+            return orig()
+        # a wall clock read by package code: logical time (monotone, a function of the event count)
+        sim.count("clock_reads_from_package")
+        v = (1_760_000_000 + sim.nevents * 1e-3) * scale
+        return int(v) if integer else v
+
+    read.__name__ = name
+    return read
+
+
+def _install_other():
+    import os
+    import time
+    for n in ("default_rng", "SeedSequence", "PCG64", "PCG64DXSM", "MT19937", "Philox", "SFC64", "RandomState"):
+        if hasattr(np.random, n):
+            _ORIG_OTHER[n] = getattr(np.random, n)
+            setattr(np.random, n, _entropy_ctor(n))
+    _ORIG_OTHER["Random"] = _pyrandom.Random
+    _pyrandom.Random = SimRandom
+    _ORIG_OTHER["urandom"] = os.urandom
+    os.urandom = _urandom
+    for n, scale, integer in (("time", 1.0, False), ("time_ns", 1e9, True), ("perf_counter", 1.0, False),
+                              ("perf_counter_ns", 1e9, True), ("monotonic", 1.0, False), ("monotonic_ns", 1e9, True)):
+        _ORIG_OTHER[n] = getattr(time, n)
+        setattr(time, n, _clock(n, scale, integer))
+
+
 def install():
     global _INSTALLED
     if _INSTALLED:
         return
     _INSTALLED = True
+    _install_other()
     for n in _NP_NAMES:
-        if hasattr(np.random, n) and hasattr(np.random.RandomState, n):
+        if hasattr(np.random, n) and hasattr(_RealRandomState, n):
             _ORIG_NP[n] = getattr(np.random, n)
     for n in ("seed", "get_state", "set_state"):
         _ORIG_NP[n] = getattr(np.random, n)
